@@ -36,7 +36,9 @@ Definition iobj_eqb (a b : iobj) := N.eqb (fst a) (fst b) && N.eqb (snd a) (snd 
 (* filter.go: filter{keys | index, labels, generic}.  keys and index are exclusive in the Go API
    (reverseIndexKey panics when both are set), so the selector is a sum type. *)
 Inductive sel := SAll | SKeys (l : list key) | SIndex (n : N).
-Record filt := { f_sel : sel; f_label : option N; f_generic : option N }.
+(* f_suppress = Some n: the dependency was registered by PartialFetch/PartialFetchComparable with projection n
+   (fetch.go withUnsafeSuppressChange): updates that leave the projection unchanged are ignored for it *)
+Record filt := { f_sel : sel; f_label : option N; f_generic : option N; f_suppress : option N }.
 Record dep := { d_id : N; d_filter : filt }.          (* internal.go dependency *)
 
 Definition opt_ok (o : option N) (x : N) : bool :=
@@ -51,15 +53,33 @@ Definition sel_ok (s : sel) (o : sobj) : bool :=
 Definition matches (f : filt) (o : sobj) (forList : bool) : bool :=
   (forList || sel_ok (f_sel f) o) && opt_ok (f_label f) (s_lab (snd o)) && opt_ok (f_generic f) (s_val (snd o)).
 
+(* the projections used with PartialFetchComparable: 0 keeps the namespace, 1 the label, anything else the value *)
+Definition projn (n : N) (p : spay) : spay :=
+  match n with
+  | 0 => {| s_val := 0; s_ns := s_ns p; s_lab := 0 |}
+  | 1 => {| s_val := 0; s_ns := 0; s_lab := s_lab p |}
+  | _ => {| s_val := s_val p; s_ns := 0; s_lab := 0 |}
+  end.
+Definition spay_eqb (a b : spay) : bool :=
+  N.eqb (s_val a) (s_val b) && N.eqb (s_ns a) (s_ns b) && N.eqb (s_lab a) (s_lab b).
+
 (* secondary event: key, old, new (core.go Event; Items() = old then new) *)
 Definition sev := (key * option spay * option spay)%type.
 Definition sev_items (e : sev) : list sobj :=
   let '(k, o, n) := e in
   (match o with Some p => [(k, p)] | None => [] end) ++ (match n with Some p => [(k, p)] | None => [] end).
 
-(* collection.go objectChanged (suppressChange is not modelled) *)
+(* filter.go (f *filter) SuppressChange(ev): only for updates (old and new present) *)
+Definition suppress (f : filt) (e : sev) : bool :=
+  match f_suppress f, e with
+  | Some n, (_, Some o, Some nw) => spay_eqb (projn n o) (projn n nw)
+  | _, _ => false
+  end.
+(* collection.go objectChanged: dependencies in registration order; a dependency on another collection or a
+   suppressed one is skipped (continue), the first remaining one that matches old or new decides *)
 Definition object_changed (ds : list dep) (src : N) (e : sev) (pre : bool) : bool :=
-  existsb (fun d => N.eqb (d_id d) src && existsb (fun o => matches (d_filter d) o pre) (sev_items e)) ds.
+  existsb (fun d => N.eqb (d_id d) src && negb (suppress (d_filter d) e) &&
+                    existsb (fun o => matches (d_filter d) o pre) (sev_items e)) ds.
 
 Inductive ityp := IndexT | GetKeyT | NoIndexT.
 Definition ityp_eqb (a b : ityp) : bool :=
@@ -203,8 +223,14 @@ Definition prelist (s : sel) (C : coll) : list sobj :=
   | SKeys l => flat_map (fun k => match cget C k with Some p => [(k, p)] | None => [] end) l
   | SIndex n => filter (fun o => N.eqb (s_ns (snd o)) n) (elements C)
   end.
-Definition fetch (f : filt) (C : coll) : list sobj :=
+Definition fetch_raw (f : filt) (C : coll) : list sobj :=
   filter (fun o => matches f o true) (prelist (f_sel f) C).
+(* PartialFetch maps the result through the projection *)
+Definition fetch (f : filt) (C : coll) : list sobj :=
+  match f_suppress f with
+  | None => fetch_raw f C
+  | Some n => map (fun o => (fst o, projn n (snd o))) (fetch_raw f C)
+  end.
 Definition fetcher (S : N -> coll) : N -> filt -> list sobj := fun c f => fetch f (S c).
 
 (* slices.GroupUnique: last value wins; key order = first occurrence *)
